@@ -299,6 +299,17 @@ impl Recovery {
     }
 }
 
+impl Recovery {
+    /// The handshake packet that established the connection is the first (and so far
+    /// greatest) ACK received: ACKs that repeat it once data is in flight are its duplicates.
+    pub fn with_handshake_ack(ack_nr: SeqNr, window: u32) -> Self {
+        Self {
+            last_ack: Some(LastAck { window, ack_nr }),
+            ..Self::new()
+        }
+    }
+}
+
 impl Default for Recovery {
     fn default() -> Self {
         Self::new()
